@@ -44,7 +44,10 @@ type c10Rel struct {
 type c10Op struct {
 	// create update get delete list query; and two events outside the driver interface:
 	// corrupt (Secret/ConfigMap backends: an object with an undecodable body appears under the
-	// key of Name/Ver, labelled name/owner/status/version) and setns (memory: SetNamespace(NS))
+	// key of Name/Ver, labelled name/owner/status/version) and setns (memory: SetNamespace(NS));
+	// and the compound rmw = what upgrade/rollback/uninstall do to the previous revision:
+	// Query{name, version}, take the single release that came back WITH the labels it came back
+	// with, set its status to Status, Update it (anything but exactly one result: error, no write)
 	Kind   string            `json:"op"`
 	Rel    *c10Rel           `json:"rel,omitempty"`
 	Name   string            `json:"name,omitempty"`
@@ -77,7 +80,7 @@ func (*c10) Rule() string {
 	return "call sequences (length 4-25) of create/update/get/delete/list/query over 3 names x 4 revisions " +
 		"(names plain, dotted, containing '.v', '.v<digits>'-suffixed, 53 characters) on the real memory/Secret/ConfigMap " +
 		"drivers (one case in four also with SetNamespace + two namespaces on memory, or records damaged behind the driver on Secret/ConfigMap), plus rich-content round trips, plus every sequence of length <= 2 (quick) / <= 3 (thorough) over a " +
-		"22-call alphabet on 2 names x 2 revisions per backend; non-trivial = at least one successful write and one read/query " +
+		"25-call alphabet on 2 names x 2 revisions per backend; non-trivial = at least one successful write and one read/query " +
 		"that returned a release; distinct = hash of (case, observation)"
 }
 func (*c10) Corpus() []any {
@@ -94,13 +97,26 @@ func (*c10) Corpus() []any {
 			{Kind: "update", Rel: mk("x", 1)}, {Kind: "create", Rel: mk("x", 1)}, {Kind: "create", Rel: mk("x", 1)},
 			{Kind: "query", Query: map[string]string{"name": "x", "owner": "helm"}},
 			{Kind: "delete", Name: "x", Ver: 2}, {Kind: "list"}}})
+		// what upgrade does to the previous revision: read it back through Query (system labels
+		// come back inside the release's labels on the Kubernetes backends), supersede it,
+		// Update it; the status selectors must follow (seeded defect C10-1)
+		lab := mk("smug-pigeon", 1)
+		lab.Labels = map[string]string{"team": "a"}
+		out = append(out, c10Case{Backend: b, Ops: []c10Op{
+			{Kind: "create", Rel: lab}, {Kind: "rmw", Name: "smug-pigeon", Ver: 1, Status: "superseded"},
+			{Kind: "query", Query: map[string]string{"status": "deployed"}},
+			{Kind: "query", Query: map[string]string{"status": "superseded"}},
+			{Kind: "get", Name: "smug-pigeon", Ver: 1},
+			{Kind: "rmw", Name: "smug-pigeon", Ver: 1, Status: "uninstalled"},
+			{Kind: "query", Query: map[string]string{"name": "smug-pigeon", "status": "uninstalled"}},
+			{Kind: "rmw", Name: "smug-pigeon", Ver: 2, Status: "failed"}, {Kind: "list"}}})
 	}
 	return out
 }
 // Exhaustive: every call sequence up to a length bound over the key space {app, a.v1} x {1, 2}
 // on each backend (quick: length <= 2; thorough: length <= 3).  The alphabet has one create
 // and one update per key (different status and content), get and delete per key, list, and
-// five queries (by name, by status, by name+version, by owner); in the thorough tier also
+// two read-modify-writes, and six queries (by name, by status x2, by name+version, by owner); in the thorough tier also
 // SetNamespace("") / SetNamespace("team-a") / a create in a second namespace (memory) and two
 // damaged records (Secret/ConfigMap).
 func (*c10) Exhaustive(tier string) []any {
@@ -115,10 +131,13 @@ func (*c10) Exhaustive(tier string) []any {
 				c10Op{Kind: "delete", Name: n, Ver: v})
 		}
 	}
-	alpha = append(alpha, c10Op{Kind: "list"},
+	alpha = append(alpha, c10Op{Kind: "rmw", Name: "app", Ver: 1, Status: "superseded"},
+		c10Op{Kind: "rmw", Name: "a.v1", Ver: 2, Status: "failed"},
+		c10Op{Kind: "list"},
 		c10Op{Kind: "query", Query: map[string]string{"name": "app"}},
 		c10Op{Kind: "query", Query: map[string]string{"name": "a.v1", "owner": "helm"}},
 		c10Op{Kind: "query", Query: map[string]string{"status": "deployed"}},
+		c10Op{Kind: "query", Query: map[string]string{"status": "superseded"}},
 		c10Op{Kind: "query", Query: map[string]string{"name": "app", "version": "1"}},
 		c10Op{Kind: "query", Query: map[string]string{"owner": "helm"}})
 	maxLen := 2
@@ -200,8 +219,10 @@ func (*c10) Generate(r *rand.Rand, _ int) any {
 		switch k := r.Intn(20); {
 		case k < 6:
 			c.Ops = append(c.Ops, c10Op{Kind: "create", Rel: mkRel()})
-		case k < 9:
+		case k < 8:
 			c.Ops = append(c.Ops, c10Op{Kind: "update", Rel: mkRel()})
+		case k < 9:
+			c.Ops = append(c.Ops, c10Op{Kind: "rmw", Name: name, Ver: ver, Status: c10Statuses[r.Intn(len(c10Statuses))]})
 		case k < 12:
 			c.Ops = append(c.Ops, c10Op{Kind: "get", Name: name, Ver: ver})
 		case k < 15:
@@ -416,6 +437,35 @@ func (*c10) Execute(ci any) (res any) {
 				m.SetNamespace(o.NS)
 				out = c10Out{Kind: "ok"}
 			}
+		case "rmw":
+			rs, err := d.Query(map[string]string{"name": o.Name, "version": fmt.Sprint(o.Ver)})
+			switch {
+			case err != nil:
+				out = c10Out{Kind: "err", Err: c10ErrClass(err)}
+			case len(rs) != 1:
+				out = c10Out{Kind: "err", Err: "other"}
+			default:
+				// work on a copy: the memory driver hands out its own record
+				cp := *rs[0]
+				if cp.Info != nil {
+					info := *cp.Info
+					cp.Info = &info
+				} else {
+					cp.Info = &rspb.Info{}
+				}
+				cp.Info.Status = rspb.Status(o.Status)
+				if rs[0].Labels != nil {
+					cp.Labels = map[string]string{}
+					for k, v := range rs[0].Labels {
+						cp.Labels[k] = v
+					}
+				}
+				if err := d.Update(c10Key(cp.Name, cp.Version), &cp); err != nil {
+					out = c10Out{Kind: "err", Err: c10ErrClass(err)}
+				} else {
+					out = c10Out{Kind: "ok"}
+				}
+			}
 		case "corrupt":
 			out = c10Out{Kind: "err", Err: "other"}
 			if c.Backend != "memory" && corrupt(o) == nil {
@@ -600,6 +650,30 @@ func (*c10) Oracle(ci, oi any) []hx.Violation {
 			} else if got.Kind != "err" {
 				bad(i, "update-missing: updating a missing key did not fail")
 			}
+		case "rmw":
+			// the stored releases the inner Query{name, version} ranges over
+			var hits []k
+			for key, e := range ref {
+				if (mem && cur != "" && key.ns != cur) || e.bad || key.n != o.Name || key.v != o.Ver {
+					continue
+				}
+				hits = append(hits, key)
+			}
+			if len(hits) != 1 {
+				if got.Kind != "err" {
+					bad(i, "rmw-missing: read-modify-write of a key that is not stored exactly once did not fail")
+				}
+				break
+			}
+			if got.Kind != "ok" {
+				bad(i, "rmw-present: reading a stored release back and updating it failed")
+			}
+			e := ref[hits[0]]
+			e.rel.Status = o.Status
+			ref[hits[0]] = e
+			if mem {
+				cur = hits[0].ns
+			}
 		case "get", "delete":
 			key := curKey(o.Name, o.Ver)
 			if want, ok := ref[key]; ok && want.bad {
@@ -688,6 +762,8 @@ func (*c10) CoqCase(ci, oi any) string {
 			ops = append(ops, "CSetNs "+hx.CoqStr(o.NS))
 		case "corrupt":
 			ops = append(ops, fmt.Sprintf("CCorrupt %s %d %s", hx.CoqStr(o.Name), o.Ver, hx.CoqStr(o.Status)))
+		case "rmw":
+			ops = append(ops, fmt.Sprintf("CRmw %s %d %s", hx.CoqStr(o.Name), o.Ver, hx.CoqStr(o.Status)))
 		case "create":
 			ops = append(ops, "COp (OCreate "+c10CoqRel(o.Rel)+")")
 		case "update":
@@ -765,7 +841,7 @@ func (*c10) NonTrivial(ci, oi any) bool {
 	c, obs := ci.(c10Case), oi.(c10Obs)
 	w, rd := false, false
 	for i, o := range obs.Outs {
-		if i < len(c.Ops) && (c.Ops[i].Kind == "create" || c.Ops[i].Kind == "update") && o.Kind == "ok" {
+		if i < len(c.Ops) && (c.Ops[i].Kind == "create" || c.Ops[i].Kind == "update" || c.Ops[i].Kind == "rmw") && o.Kind == "ok" {
 			w = true
 		}
 		if o.Kind == "rel" || (o.Kind == "rels" && len(o.Rels) > 0) {
